@@ -37,10 +37,18 @@ class SubtotalSpec:
         return self.B.length(self.sub_at(s))
 
     def add(self, s, k):
-        return self.B.idx_at(self.add_at(s), k)
+        return self._at(self.add_at(s), k)
 
     def sub(self, s, k):
-        return self.B.idx_at(self.sub_at(s), k)
+        return self._at(self.sub_at(s), k)
+
+    def _at(self, lst, k):
+        """k-th index of the list; position 0 as a placeholder when the (concrete-size) list is
+        shorter -- every use is guarded by a condition on the list's length"""
+        try:
+            return self.B.idx_at(lst, k)
+        except IndexError:
+            return 0
 
     def signed_sum(self, s, f):
         """sum_{k in addends} f(k) - sum_{k in subtrahends} f(k)"""
